@@ -454,6 +454,92 @@ func pgShadowsCaptured(body *pgNode, ps []string) bool {
 	return found
 }
 
+// pgCaptureOrder: the names a closure body captures, in the order of their first use in the text
+// (the order in which the parser records OuterIdents): identifiers that are in `outside`, not
+// parameters and not bound by a let/func/closure parameter between the closure and the use
+func pgCaptureOrder(body *pgNode, params []string, outside map[string]bool) []string {
+	var order []string
+	var walk func(n *pgNode, local []string)
+	walk = func(n *pgNode, local []string) {
+		switch n.K {
+		case "ident":
+			if !pgContains(local, n.Name) && outside[n.Name] && !pgContains(order, n.Name) {
+				order = append(order, n.Name)
+			}
+		case "let":
+			walk(n.Kids[0], local)
+			walk(n.Kids[1], append(append([]string{}, local...), n.Name))
+		case "func":
+			inner := append(append([]string{}, local...), n.Name)
+			walk(n.Kids[0], append(append([]string{}, inner...), n.Ps...))
+			walk(n.Kids[1], inner)
+		case "clo":
+			walk(n.Kids[0], append(append([]string{}, local...), n.Ps...))
+		default:
+			for _, k := range n.Kids {
+				walk(k, local)
+			}
+		}
+	}
+	walk(body, params)
+	return order
+}
+
+// pgCtxPermuted: some closure Y directly nested in a closure X captures at least two names, exactly the
+// names X captures, and first uses them in a different order than X's body does (the values reach Y
+// through X's context; a context shared between the two would be read in the wrong order)
+func pgCtxPermuted(root *pgNode, statics map[string]bool) bool {
+	// names that can be captured: every identifier of the program that is a binder somewhere or is
+	// neither a constant nor a static function (the arguments of the program are among those)
+	outside := map[string]bool{}
+	bound := map[string]bool{}
+	root.Walk(func(x *pgNode) {
+		if x.K == "let" || x.K == "func" {
+			bound[x.Name] = true
+		}
+		if x.K == "clo" || x.K == "func" {
+			for _, p := range x.Ps {
+				bound[p] = true
+			}
+		}
+	})
+	root.Walk(func(x *pgNode) {
+		if x.K == "ident" && (bound[x.Name] || !(x.Name == "true" || x.Name == "false" || x.Name == "pi" || statics[x.Name])) {
+			outside[x.Name] = true
+		}
+	})
+	found := false
+	var nested func(n *pgNode, orderX []string)
+	nested = func(n *pgNode, orderX []string) {
+		if n.K == "clo" {
+			orderY := pgCaptureOrder(n.Kids[0], n.Ps, outside)
+			if len(orderY) >= 2 && len(orderY) == len(orderX) && strings.Join(orderY, ",") != strings.Join(orderX, ",") {
+				same := true
+				for _, y := range orderY {
+					if !pgContains(orderX, y) {
+						same = false
+					}
+				}
+				if same {
+					found = true
+				}
+			}
+			return
+		}
+		for _, k := range n.Kids {
+			nested(k, orderX)
+		}
+	}
+	root.Walk(func(x *pgNode) {
+		if x.K == "clo" {
+			nested(x.Kids[0], pgCaptureOrder(x.Kids[0], x.Ps, outside))
+		} else if x.K == "func" {
+			nested(x.Kids[0], pgCaptureOrder(x.Kids[0], append([]string{x.Name}, x.Ps...), outside))
+		}
+	})
+	return found
+}
+
 func pgClosureDepth(n *pgNode) int {
 	d := 0
 	for _, k := range n.Kids {
@@ -538,6 +624,9 @@ func (n *pgNode) shapes(statics map[string]bool) map[string]bool {
 			}
 		}
 	})
+	if pgCtxPermuted(n, statics) {
+		res["inner closure reads the enclosing closure's captured names in another order"] = true
+	}
 	if d := pgClosureDepth(n); d >= 2 {
 		res[fmt.Sprintf("closure levels >= %d", min(d, 3))] = true
 	}
@@ -965,6 +1054,12 @@ func (g *pgProgGen) expr(t *pgTy, e *pgGenv, size int, allowLet bool) *pgNode {
 			if size >= 9 && t.K != "fun" {
 				return g.orderProbe(t, e, size)
 			}
+		case c < 70:
+			if size >= 16 && t.K == "int" {
+				if n := g.ctxPermute(e, size); n != nil {
+					return g.guard(n, t, e, allowLet)
+				}
+			}
 		default:
 			return g.typed(t, e, size, allowLet)
 		}
@@ -1310,6 +1405,76 @@ func (g *pgProgGen) guard(n *pgNode, t *pgTy, e *pgGenv, allowLet bool) *pgNode 
 		return n
 	}
 	return pgNIf(pgNId("true"), n, g.leaf(t, e))
+}
+
+// an outer closure whose body first mentions the captured names in one order (b in a condition or a let,
+// then a) and returns an inner closure that mentions the same names in another order (a before b) in a
+// non-commutative combination, without using the outer closure's parameter; applied level by level:
+//
+//	(p -> if b > p then (q -> a * q - b) else (q -> q))(e1)(e2)        - optionally a third level around it
+func (g *pgProgGen) ctxPermute(e *pgGenv, size int) *pgNode {
+	vars := e.visible(func(x *pgTy) bool { return x.K == "int" })
+	if len(vars) < 2 {
+		return nil
+	}
+	i := g.pick(len(vars))
+	j := (i + 1 + g.pick(len(vars)-1)) % len(vars)
+	a, b := vars[i].name, vars[j].name
+	fresh := func(n int) []string {
+		var ns []string
+		for len(ns) < n {
+			c := g.oneOf(pgNamePool)
+			if c != a && c != b && !pgContains(ns, c) {
+				ns = append(ns, c)
+			}
+		}
+		return ns
+	}
+	ns := fresh(3)
+	p, q, r := ns[0], ns[1], ns[2]
+	var innerBody *pgNode
+	switch g.pick(4) {
+	case 0:
+		innerBody = pgNOp("-", pgNOp("*", pgNId(a), pgNId(q)), pgNId(b))
+	case 1:
+		innerBody = pgNOp("-", pgNId(a), pgNOp("+", pgNOp("*", pgNId(b), pgNInt(3)), pgNId(q)))
+	case 2:
+		innerBody = pgNOp("+", pgNOp("<<", pgNId(a), pgNInt(4)), pgNOp("-", pgNId(b), pgNId(q)))
+	default:
+		innerBody = pgNOp("-", pgNIndex(pgNList(pgNId(a), pgNId(b)), pgNInt(0)), pgNOp("*", pgNId(b), pgNId(q)))
+	}
+	inner := pgNClo([]string{q}, innerBody)
+	other := pgNClo([]string{q}, pgNId(q))
+	var outerBody *pgNode
+	switch g.pick(3) {
+	case 0:
+		outerBody = pgNIf(pgNOp(g.cmpOp(), pgNId(b), pgNId(p)), inner, other)
+	case 1:
+		t := fresh(1)[0]
+		for t == p || t == q {
+			t = fresh(1)[0]
+		}
+		outerBody = pgNLet(t, pgNOp("+", pgNId(b), pgNId(p)), pgNIf(pgNOp(">=", pgNId(t), pgNId(p)), inner, other))
+	default:
+		outerBody = pgNIf(pgNOp("=", pgNCall("static", pgNId("min"), pgNId(b), pgNId(p)), pgNId(p)), inner, inner)
+		if _, bound := e.lookup("min"); bound {
+			outerBody = pgNIf(pgNOp("<", pgNId(b), pgNId(p)), inner, inner)
+		}
+	}
+	outer := pgNClo([]string{p}, outerBody)
+	sz := g.split(max(size-14, 3), 3)
+	arg := func(k int) *pgNode { return g.expr(pgTInt, e, sz[k], true) }
+	if g.chance(0.35) {
+		// three levels
+		outer3 := pgNClo([]string{r}, outer)
+		return pgNCall("closure", pgNCall("closure", pgNCall("closure", outer3, arg(0)), arg(1)), arg(2))
+	}
+	if g.chance(0.5) {
+		return pgNCall("closure", pgNCall("closure", outer, arg(0)), arg(1))
+	}
+	// let f = outer; f(e1)(e2) needs a let position: the caller guards it
+	f := g.freshName(e, []string{a, b})
+	return pgNLet(f, outer, pgNCall("closure", pgNCall("closure", pgNId(f), arg(0)), arg(1)))
 }
 
 // m.f(args) where the field f of the map m holds a closure
@@ -1841,7 +2006,12 @@ func pgGenProgramMode(r *Rng, statics map[string]bool, maxNodes int, c02 bool) *
 			rt = pgTInt
 		}
 		var tree *pgNode
-		if c02 && r.Chance(0.2) {
+		if !c02 && budget >= 16 && r.Chance(0.06) {
+			tree = g.ctxPermute(env, budget)
+		}
+		if tree != nil {
+			// the context-permutation shape at the root
+		} else if c02 && r.Chance(0.2) {
 			tree = g.chain(g.scalarType(), env, budget)
 		} else if r.Chance(0.12) && budget >= 10 {
 			tree = g.curried(rt, env, budget)
